@@ -474,6 +474,29 @@ fn random_case(u: &mut Choices, sz: Size) -> CaseResult {
     finish(doc_text, text, r, evals, vec![])
 }
 
+/// a rule name defined twice (legal: the test command has a rule for it): the renderings must
+/// still agree on which names are PASS / FAIL / SKIP
+fn duplicate_names_case(u: &mut Choices, sz: Size) -> CaseResult {
+    let doc = gen_cfn_doc(u, &sz);
+    let mut file = gen_wide_file(u, &doc, sz, false);
+    if file.rules.len() < 2 {
+        return CaseResult::Discard("fewer-than-two-rules");
+    }
+    // the later definition takes the name of an earlier one; references to the old name follow
+    let i = u.below(file.rules.len() - 1);
+    let j = u.range(i + 1, file.rules.len() - 1);
+    let (old, new) = (file.rules[j].name.clone(), file.rules[i].name.clone());
+    file.rules[j].name = new.clone();
+    let text = print_file(&file);
+    if text.lines().any(|l| l.trim() == old || l.trim() == format!("not {}", old) || l.contains(&format!("when {}", old))) {
+        return CaseResult::Discard("renamed-rule-is-referenced");
+    }
+    let doc_text = doc.to_json();
+    let mut evals = 0;
+    let r = check_all(&doc_text, &text, &mut evals).map_err(|(m, sg)| (format!("rule name {} defined twice: {}", new, m), format!("c07:duplicate-names:{}", sg.trim_start_matches("c07:"))));
+    finish(doc_text, text, r, evals, vec!["duplicate-rule-name".into()])
+}
+
 /// several rules files against one data file: the union of the PASS / FAIL / SKIP sets must be the
 /// same in every rendering (the structured reporter merges the per-file reports, the plain ones
 /// print one report per pair)
@@ -750,6 +773,7 @@ pub fn run(tier: Tier, seed: u64) -> i32 {
         let sz = tier.pick(Size::quick(), Size::thorough());
         run.run_random("multi-file", tier.pick(6_000, 150_000), tier.pick(2500, 4000), |u| multi_case(u, sz));
         run.run_random("multi-data", tier.pick(6_000, 150_000), tier.pick(2000, 3200), |u| multi_data_case(u, sz));
+        run.run_random("duplicate-names", tier.pick(1_500, 30_000), tier.pick(1200, 2400), |u| duplicate_names_case(u, sz));
         run.run_random("formats", tier.pick(8_000, 200_000), tier.pick(1200, 2400), |u| random_case(u, sz));
     })
 }
